@@ -89,3 +89,26 @@ class TargetImpl:
         """(some_edges, none_edges) on the discriminant of shade_fragment's result."""
         sl = self.sl[body.path]
         return G.option_edges(body, sl, lambda p: is_call_to(p, "FragmentShader::shade_fragment"))
+
+
+def capture_terms(prog, closure):
+    """upvar index -> provenance term (in the parent body) of what the closure captures."""
+    parent = prog.bodies.get(closure.parent)
+    if parent is None:
+        return {}
+    psl = T.Slicer(parent)
+    for _bi, _si, s in parent.stmts():
+        if s["k"] == "Assign" and s["rv"]["k"] == "Aggregate" and s["rv"].get("closure") == closure.path:
+            return {i: psl.operand(o) for i, o in enumerate(s["rv"]["ops"])}
+    return {}
+
+
+def upvar_index(sl, name):
+    for idx, (n, _byref) in sl.upvars().items():
+        if n == name:
+            return idx
+    return None
+
+
+def in_cycle(body, bb):
+    return bb in body.reachable_from_succs(bb)
